@@ -110,7 +110,7 @@ def _arg0_ty(t):
     return tys[0] if tys else ""
 
 
-def sh_merge(ctx, out, bodies, rule="SH.merge", floor_entries=10):
+def sh_merge(ctx, out, bodies, rule="SH.merge", floor_entries=5):
     """No overwriting call on a `HashMap<PathBuf, Vec<Violation>>`; all writes go through
     entry().or_insert_with().push/extend."""
     entries = 0
